@@ -11,7 +11,7 @@ Fixpoint index_of (a : string) (l : list string) (k : Z) : Z :=
 
 Definition trigger_names := ["change_backend::before"; "tensorlib_changed"; "optimizer_changed"; "change_backend::after"].
 
-(* (kind, a, b):  0 trigger(name index) | 1 _precompute(id) | 2 subscribe(id, class index) | 3 observation(id, fresh?) | 4 shape(id, shape) *)
+(* (kind, a, b):  0 trigger(name index) | 1 _precompute(id) | 2 subscribe(id, class index) | 3 observation(id, fresh?) | 4 shape(id, shape) | 5 all-live-objects observation(fresh?) *)
 Definition enc_ev (F : list cfacts) (e : ev) : Z * Z * Z :=
   match e with
   | EvTrigger n => (0, index_of n trigger_names 0, 0)%Z
@@ -19,6 +19,7 @@ Definition enc_ev (F : list cfacts) (e : ev) : Z * Z * Z :=
   | EvSub id cls => (2%Z, Z.of_nat id, index_of cls (map cf_name F) 0%Z)
   | EvObs id b => (3%Z, Z.of_nat id, if b then 1%Z else 0%Z)
   | EvShape id sh => (4%Z, Z.of_nat id, Z.of_nat sh)
+  | EvAllObs b => (5%Z, 0%Z, if b then 1%Z else 0%Z)
   end.
 Definition enc_report (F : list cfacts) (h : list op) : list (list (Z * Z * Z) * Z) :=
   map (fun p => (map (enc_ev F) (fst p), Z.of_nat (snd p))) (report F h).
